@@ -2,6 +2,7 @@ package c15
 
 import (
 	"context"
+	"encoding/json"
 	"fmt"
 	"os"
 	"reflect"
@@ -28,6 +29,10 @@ import (
 // interleaving of blocks, A-extras and B-extras within the bounds is enumerated.
 //
 // Oracle = a map (the reference) that only sees the transactions of successfully executed blocks.
+//
+// Part 2 (size_test.go) adds the dimension this search cannot afford: the SIZE of a block (1 .. hundreds/thousands of
+// transactions, thin and fat values) with one deviation (invalid tx, regrouping, duplicate key, crash, I/O error) at
+// every / every boundary position.
 
 // ---------------------------------------------------------------------------------------------------------------
 // inputs
@@ -626,6 +631,9 @@ func TestCheck(t *testing.T) {
 		"a transaction that writes the key /finalizedHeight may be accepted or rejected, but identically on both instances",
 		"hook apps/testapp/kv/verif_hooks.go only exposes a constructor on a given datastore, the root computation (read-only probe) and the mempool length",
 		"A and B share no state (own datastore, own channel), so the pair state is canonicalised up to swapping them",
+		"size part, fault model: a crash ends the process before a durable write (a Put or a whole Batch.Commit) is applied, an I/O error makes that one write fail without applying any of it (atomic writes as above); the durable writes of one ExecuteTxs are enumerated by running it once without faults (1 on the unchanged tree: the single batch commit)",
+		"size part: cases of one (size, value length, pre-state) group start from copies of one datastore image produced by real calls (same notion as reopen); keys of the enumerated blocks are k00000.., values v<i> padded to the stated length: the size of a block is varied, not the spelling of its transactions (part 1 does that)",
+		"size part: a block interrupted by a crash or a failed write may be applied completely or not at all (judged by the root after reopen/retry); the statement does not say which",
 	}
 	// cost = length first, then the lexicographic rank of the history, so that the example kept per clause is the
 	// same on every run (workers report in no particular order)
@@ -652,12 +660,23 @@ func TestCheck(t *testing.T) {
 		}
 		return
 	}
+	sizeCostBase := (depth + 1) * base // examples of the BFS part (small blocks) are preferred over examples of the size part
 	if r.ReplayPath() != "" {
-		var hist []int
-		if _, err := r.LoadReplay(&hist); err != nil {
+		var raw json.RawMessage
+		if _, err := r.LoadReplay(&raw); err != nil {
 			r.EngineError(err.Error())
+		} else if strings.HasPrefix(strings.TrimSpace(string(raw)), "{") { // a case of the size part
+			var c sizeCase
+			if err := json.Unmarshal(raw, &c); err != nil {
+				r.EngineError(err.Error())
+			} else {
+				replaySizeCase(r, sizeCostBase, c)
+			}
 		} else {
-			if res := runHistory(cfg, hist); res.disabled {
+			var hist []int
+			if err := json.Unmarshal(raw, &hist); err != nil {
+				r.EngineError(err.Error())
+			} else if res := runHistory(cfg, hist); res.disabled {
 				r.EngineError("the replayed history is not enabled under this tier's bounds")
 			} else {
 				report(hist, res)
@@ -666,7 +685,7 @@ func TestCheck(t *testing.T) {
 		r.Finish(vf.Coverage{Evaluations: 1, DistinctNontrivial: 1})
 		return
 	}
-	var executed, disabled, blockRuns, rootChecks atomic.Int64
+	var executed, disabled, blockRuns, rootChecks, nSamples atomic.Int64
 	started := time.Now()
 	st := explore.BFS(explore.BFSConfig{Depth: depth, Actions: len(cfg.acts), Deadline: vf.Pick(r, 100*time.Second, 25*time.Minute)}, func(hist []int) explore.Step {
 		if staticallyDisabled(cfg, hist) {
@@ -688,21 +707,33 @@ func TestCheck(t *testing.T) {
 		if report(hist, res) {
 			return explore.Step{Prune: true}
 		}
-		if len(hist) == 4 || len(hist) == depth {
+		if (len(hist) == 4 || len(hist) == depth) && nSamples.Add(1) <= 3 { // the other sample slots are for part 2
 			r.Sample(strings.Join(res.trace, " ; ") + "  =>  " + res.outcome)
 		}
 		r.Outcome(res.outcome)
 		return explore.Step{Key: res.key}
 	})
+	part1Wall := time.Since(started)
 	var caps []string
 	if st.Capped != "" {
 		caps = append(caps, st.Capped)
 	}
+	// second part: the block-size dimension (size_test.go)
+	sz := runSizePhase(r, sizeCostBase, started.Add(vf.Pick(r, 300*time.Second, 40*time.Minute)))
+	if sz.capped != "" {
+		caps = append(caps, sz.capped)
+	}
 	r.Finish(vf.Coverage{
-		Evaluations: executed.Load(), DistinctNontrivial: st.States, States: st.States, Transitions: st.Transitions,
-		Rule:       "every interleaving of: execute one of the blocks on both real instances (at most maxBlocks), and per instance at most maxExtras extra calls from {SetFinal(h) for executed h, InjectTx, GetTxs, InitChain again, reopen, re-execute the last block}; each history is run from scratch on two fresh real KVExecutors; evaluations = enabled histories executed (transitions also counts histories rejected by bounds/preconditions); histories are merged when both datastore images, both mempools, the fed-back roots/heights, the used budgets and the reference map agree (the executor has no other state; extra struct fields would be part of the key), modulo swapping A and B; distinct = distinct merged states",
-		Exhaustive: st.DepthDone == depth, Caps: caps,
-		Bounds: map[string]any{"depth": st.DepthDone, "blocks_per_history": maxBlocks, "extras_per_instance": maxExtras, "block_set": cfg.blocks, "alphabet": len(cfg.acts), "states_per_level": st.PerLevel},
-		Extra:  map[string]any{"histories_disabled": disabled.Load(), "histories_ending_in_a_block": blockRuns.Load(), "returned_roots_compared_with_reference": rootChecks.Load()},
+		Evaluations: executed.Load() + sz.cases, DistinctNontrivial: st.States + sz.cases, States: st.States, Transitions: st.Transitions,
+		Rule: "PART 1 (interleavings, small blocks): every interleaving of: execute one of the blocks on both real instances (at most maxBlocks), and per instance at most maxExtras extra calls from {SetFinal(h) for executed h, InjectTx, GetTxs, InitChain again, reopen, re-execute the last block}; each history is run from scratch on two fresh real KVExecutors; histories are merged when both datastore images, both mempools, the fed-back roots/heights, the used budgets and the reference map agree (the executor has no other state; extra struct fields would be part of the key), modulo swapping A and B; states/transitions refer to this part (transitions also counts histories rejected by bounds/preconditions). " +
+			"PART 2 (block size, plain nested loops, no sampling): one block of n transactions k00000..k<n-1> for every n of size_part.sizes, from each pre-state of size_part.plan.pre_states (empty = fresh store; half = a previous block wrote the even-numbered ones of the n keys with other values, and one more key, so that a partially applied block shows both as overwritten and as new keys), with exactly one deviation at an enumerated position: an invalid transaction of each kind at tx position p (only instance A is offered the block); the same transactions executed as one block on A and as two blocks split at p on B; a duplicate key (tx[p] rewrites tx[0] / tx[p-1]; the last tx rewrites tx[p]); a crash before, or an I/O error at, EVERY durable write that a fault-free ExecuteTxs of that block performs (measured per block), followed by reopen/retry; every position p for the sizes listed under every_position_*, otherwise the boundary positions (positions_otherwise); after a rejected or interrupted block a small valid block follows; each case ends with InitChain again and a reopen; the pre-state of a (size, value length, pre-state) group is produced once by real calls and every case runs on fresh real KVExecutors over a copy of that datastore image. Each case of part 2 is a distinct input by construction. " +
+			"evaluations = enabled histories executed in part 1 + cases executed in part 2; distinct = distinct merged states of part 1 + cases of part 2",
+		Exhaustive: st.DepthDone == depth && sz.capped == "", Caps: caps,
+		Bounds: map[string]any{"depth": st.DepthDone, "blocks_per_history": maxBlocks, "extras_per_instance": maxExtras, "block_set": cfg.blocks, "alphabet": len(cfg.acts), "states_per_level": st.PerLevel,
+			"size_part": map[string]any{"plan": sz.plan, "distinct_block_sizes": sz.sizes, "largest_block_txs": sz.maxSize, "largest_block_bytes": sz.maxBytes}},
+		Extra: map[string]any{"histories_disabled": disabled.Load(), "histories_ending_in_a_block": blockRuns.Load(), "returned_roots_compared_with_reference": rootChecks.Load() + sz.rootCmp,
+			"part1_histories_executed": executed.Load(), "part1_wall_s": part1Wall.Seconds(),
+			"size_part_cases": sz.cases, "size_part_cases_by_kind": sz.byKind, "size_part_outcomes": sz.outcomeKeys, "size_part_roots_compared_with_reference": sz.rootCmp,
+			"size_part_max_durable_writes_per_executetxs": sz.maxWrites, "size_part_wall_s": sz.wall.Seconds(), "size_part_cpu_s": sz.cpu.Seconds(), "size_part_groups": sz.groups},
 	})
 }
